@@ -43,7 +43,7 @@ func newEnv(seed uint64, dist hx.Counter) *env { return newEnvN(seed, dist, NACC
 func newEnvN(seed uint64, dist hx.Counter, nAcc, nVal int) *env {
 	e := &env{r: hx.NewRng(seed), acc: map[string]int64{}, accName: map[int64]string{}, den: map[string]int64{}, denName: map[int64]string{},
 		spools: map[string]int64{}, dapps: map[string]int64{}, colls: map[string]int64{}, recs: map[string]int64{}, dist: dist,
-		shareSet: map[int64][2]int64{}, bk: 1, coll: "coll1", dapp: "dapp1", rr: "rr/node1"}
+		shareSet: map[int64][2]int64{}, bk: 1, coll: "coll1", dapp: "dapp1", rr: "rr/node1", again: map[string]func(){}}
 	// the default UBI record alone exceeds the default hard cap, so no UBI proposal could pass: the cap is raised in the genesis
 	e.c = abci.NewChain(abci.Config{Accounts: nAcc, Validators: nVal, Seed: 7, Gov: func(g *govtypes.GenesisState) { g.NetworkProperties.UbiHardcap = 60_000_000 }})
 	for name, id := range moduleIDs {
@@ -1004,4 +1004,17 @@ func (e *env) multiDelegate(u, v int, den string, amt int64, n int) bool {
 		}
 	}
 	return e.tx("delegate", u, msgs, model, map[string]interface{}{"account": u, "validator": v, "denom": den, "amount_first": amt, "messages": n})
+}
+
+// MsgSetCompoundInfo: the delegator's auto-compound setting (a settings change of the actor between two delegations)
+func (e *env) setCompound(u int, all bool, dens []string) bool {
+	return e.tx("set_compound", u, []sdk.Msg{mstypes.NewMsgSetCompoundInfo(e.addr(u), all, dens)}, []string{fmt.Sprintf("BankSend %d %d 0 0", 100+u, 100+u)},
+		map[string]interface{}{"account": u, "all_denoms": all, "denoms": dens})
+}
+
+// repeat the last deposit-type operation of a class by the SAME actor (after a settings change that concerns it)
+func (e *env) repeatDeposit(class string) {
+	if f := e.again[class]; f != nil {
+		f()
+	}
 }
